@@ -30,7 +30,6 @@ type Parser struct {
 	LspSuggestTargetT   base.T
 	Errors              []error
 	DefineInfos         []string
-	BeforeString        string
 }
 
 func New(lexer lexer.Lexer, file string) Parser {
